@@ -145,10 +145,54 @@ def P(p, d):
     return Ptr(p.obj, p.off + d)
 
 
+_ENG = None
+
+
 def conc(v, what="value"):
-    if is_sym(v) or isinstance(v, tuple):
+    """concrete value of v for the current state; a symbolic v is concretised by forking over its B+1
+    smallest feasible values (the forks re-execute the current call instruction)"""
+    if is_sym(v):
+        return _ENG.concretize(_ENG.cur, v, None, what)
+    if isinstance(v, tuple):
         raise NotImplementedError("symbolic " + what)
     return v
+
+
+def concretize_cells(e, st, cs, what, limit=48):
+    """concrete bytes for a cell list: take the bytes of one model, fork the complement (re-executed)"""
+    sym = [(i, c) for i, c in enumerate(cs) if type(c) is not int]
+    e.sync(st)
+    s = e.solver
+    s.push()
+    r = s.check()
+    e.stats["queries"] += 1
+    if r != z3.sat:
+        s.pop()
+        raise PathEnd("infeasible" if r == z3.unsat else "unknown")
+    m = s.model()
+    s.pop()
+    out = list(cs)
+    conj = []
+    for i, c in sym:
+        b = cell_bv(c)
+        v = m.eval(b, model_completion=True).as_long()
+        out[i] = v
+        conj.append(b == v)
+    cond = z3.And(*conj) if len(conj) > 1 else conj[0]
+    ncond = z3.Not(cond)
+    if e.sat(st, ncond):
+        n = st.user.get("_concforks", 0)
+        if n >= limit:
+            e.stats["bound_cuts"] = e.stats.get("bound_cuts", 0) + 1
+        else:
+            o2 = e.fork(st)
+            o2.user["_concforks"] = n + 1
+            e.add_pc(o2, ncond)
+            o2.frames[-1].ip -= 1
+            e.work.append(o2)
+            e.stats["forks"] += 1
+    e.add_pc(st, cond)
+    return bytes(out)
 
 
 def cells(e, st, p, n):
@@ -172,22 +216,37 @@ def put_cells(e, st, p, cs):
 
 def cbytes(cs, what="bytes"):
     if not all(type(c) is int for c in cs):
-        raise NotImplementedError("symbolic " + what)
+        return concretize_cells(_ENG, _ENG.cur, cs, what)
     return bytes(cs)
 
 
 def cstring(e, st, p):
+    if isinstance(p, Ptr) and is_sym(p.off):
+        p = e.concrete_ptr(st, p, "C string")
     o = e.get_obj_r(st, p.obj)
+    if o is None or p.obj == 0:
+        raise e.violation(st, "C string read through null/invalid pointer", aid="memory")
     i = p.off
     out = []
+    symbolic = False
     while True:
+        if i >= o.size:
+            if symbolic:
+                break
+            raise e.violation(st, "unterminated C string (read past the end of the object)", aid="memory")
         c = o.data[i]
         if type(c) is not int:
-            raise NotImplementedError("symbolic cstring")
-        if c == 0:
+            symbolic = True
+        elif c == 0:
             break
         out.append(c)
         i += 1
+    if symbolic:
+        b = concretize_cells(e, st, out, "C string")
+        z = b.find(b"\0")
+        if z < 0 and i >= o.size:
+            raise e.violation(st, "unterminated C string (read past the end of the object)", aid="memory")
+        return b if z < 0 else b[:z]
     return bytes(out)
 
 
@@ -1151,6 +1210,8 @@ ALL.update({
 
 
 def install(e):
+    global _ENG
+    _ENG = e
     e.models.update(ALL)
     e.reach = {}
     install_prefix_models(e)
